@@ -3,6 +3,7 @@ from .lib.match import *
 
 SELECT = r'^bluetoe::link_layer::details::(connection_state_base|disarmable_connection_state)::|^bluetoe::link_layer::link_layer::(end_event|try_event_cancelation)$'
 UNITS = lambda u: u in ('w_inst_ll',) or u.startswith('t_link_layer_peripheral_latency') or u.startswith('t_link_layer_ll_peripheral')
+ALSO = [('C21', ('no-pullback-while-update-applied',))]   # a pulled-back event must not use connection parameters whose instant has not come: decided by C21's rule, run here as well
 CS = 'bluetoe::link_layer::details::connection_state_base::'
 META = {
     'level': 'co-update: each of the four mutators of the connection state advances channel index (mod 37), event counter and elapsed time by the same number of events; '
